@@ -429,6 +429,13 @@ class List(list, base.Symbolic, pg_typing.CustomTyping):
       # Generates no update as old value is the same as the new value.
       if old_value is value:
         return None
+      # Replacing an element with MISSING_VALUE removes it.
+      if pg_typing.MISSING_VALUE == value:
+        self._ensure_removable()
+    elif self.max_size is not None and len(self) >= self.max_size:
+      # Every way of adding an element (append, insert, slice assignment,
+      # rebind) ends up here.
+      raise ValueError(f'List reached its max size {self.max_size}.')
 
     new_value = self._formalized_value(index, value)
     if index < len(self):
@@ -445,6 +452,13 @@ class List(list, base.Symbolic, pg_typing.CustomTyping):
         self.sym_path + index, self,
         self._value_spec.element if self._value_spec else None,
         old_value, new_value)
+
+  def _ensure_removable(self) -> None:
+    """Raises if removing an element would go below the min size."""
+    if self._value_spec and len(self) <= self._value_spec.min_size:
+      raise ValueError(
+          f'Cannot remove item: min size ({self._value_spec.min_size}) '
+          f'is reached.')
 
   def _detach(self, value: Any) -> None:
     """Detaches a removed or replaced element from the object tree."""
@@ -621,6 +635,7 @@ class List(list, base.Symbolic, pg_typing.CustomTyping):
 
     if index < 0:
       index += len(self)
+    self._ensure_removable()
     old_value = self.sym_getattr(index)
     super().__delitem__(index)
     self._detach(old_value)
